@@ -347,11 +347,6 @@ package main
 //@   note newTkz is executed in place (over SMT strings); nextToken is used through its contract
 
 
-//@ func RootStmtsToGo
-//@   trusted
-//@   panics may
-//@   note abstract: the emitter; returns the complete text of the output file; writes no files (closed-world scan)
-
 //@ func transpileOne
 //@   props C16 C07
 //@   modifies maps glob:stdout glob:fsr glob:fsc glob:wg glob:vardefs glob:typeregs glob:tvaresets glob:uniqueid
@@ -1063,6 +1058,7 @@ package main
 //@ func dsToGo
 //@   props C03
 //@   panics may
+//@   returns ite(is(DefStmt_DRecordDef, ds), record_text(DefStmt_DRecordDef_Value(ds)), union_text(DefStmt_DUnionDef_Value(ds)))
 //@   ensures record: is(DefStmt_DRecordDef, ds) ==> result == record_text(DefStmt_DRecordDef_Value(ds))
 //@   ensures union: is(DefStmt_DUnionDef, ds) ==> result == union_text(DefStmt_DUnionDef_Value(ds))
 
@@ -2886,3 +2882,51 @@ package main
 //@   ensures parameters-in-order: forall k int :: 0 <= k && k < len(le.Params) ==> P[k] == le.Params[k].Name + " " + go_type(le.Params[k].Ftype)
 //@   at after call slice.Map#0: P = ret
 //@   at after call blockToType#0: RT = ret
+
+// ---------------------------------------------------------------------------------------------
+// C03, a whole file: each root statement is emitted by the emitter of its kind (package, import, nothing for a
+// package_info block, a package func for a function let, a package var for a variable let, the definition
+// texts for type definitions), and the file is the statements in order, separated by a blank line.
+// ---------------------------------------------------------------------------------------------
+
+//@ func imToGo
+//@   props C03
+//@   panics never
+//@   returns "import \"" + pn + "\""
+
+//@ func pmToGo
+//@   props C03
+//@   panics never
+//@   returns "package " + pn
+
+//@ func mdToGo
+//@   props C03
+//@   ghost M []string
+//@   panics may
+//@   ensures text: result == join_prefix(M, "\n", len(md.Defs))
+//@   ensures each-member-by-its-kind: forall k int :: 0 <= k && k < len(md.Defs) ==> (is(DefStmt_DRecordDef, md.Defs[k]) ==> M[k] == record_text(DefStmt_DRecordDef_Value(md.Defs[k]))) && (is(DefStmt_DUnionDef, md.Defs[k]) ==> M[k] == union_text(DefStmt_DUnionDef_Value(md.Defs[k])))
+//@   at after call slice.Map#0: M = ret
+
+//@ func RootStmtToGo
+//@   props C03
+//@   ghost R int                 -- which emitter produced the text: 1 rfdToGo (package func), 2 rootVarDefToGo (package var)
+//@   ghost TXT string
+//@   panics may
+//@   ensures package: is(RootStmt_RSPackage, rstmt) ==> result == "package " + RootStmt_RSPackage_Value(rstmt)
+//@   ensures import: is(RootStmt_RSImport, rstmt) ==> result == "import \"" + RootStmt_RSImport_Value(rstmt) + "\""
+//@   ensures package-info-emits-nothing: is(RootStmt_RSPackageInfo, rstmt) ==> result == ""
+//@   ensures a-function-let-is-a-package-func: is(RootStmt_RSRootFuncDef, rstmt) ==> R == 1 && result == TXT
+//@   ensures a-variable-let-is-a-package-var: is(RootStmt_RSRootVarDef, rstmt) ==> R == 2 && result == TXT
+//@   ensures a-record-definition: is(RootStmt_RSDefStmt, rstmt) && is(DefStmt_DRecordDef, RootStmt_RSDefStmt_Value(rstmt)) ==> result == record_text(DefStmt_DRecordDef_Value(RootStmt_RSDefStmt_Value(rstmt)))
+//@   ensures a-union-definition: is(RootStmt_RSDefStmt, rstmt) && is(DefStmt_DUnionDef, RootStmt_RSDefStmt_Value(rstmt)) ==> result == union_text(DefStmt_DUnionDef_Value(RootStmt_RSDefStmt_Value(rstmt)))
+//@   at before call rfdToGo#0: R = 1
+//@   at after call rfdToGo#0: TXT = ret
+//@   at before call rootVarDefToGo#0: R = 2
+//@   at after call rootVarDefToGo#0: TXT = ret
+
+//@ func RootStmtsToGo
+//@   props C03 C16
+//@   ghost A []string
+//@   panics may
+//@   ensures the-statements-in-order-separated-by-a-blank-line: result == join_prefix(A, "\n\n", len(rstmts)) + "\n"
+//@   at after call slice.Map#0: A = ret
